@@ -15,13 +15,6 @@ From Verif Require Import Lib.Corr Lib.Crash_Store Lib.Crash_Block Gen.C28.
 Definition ev_eqb (a b : string * string) : bool :=
   String.eqb (fst a) (fst b) && String.eqb (snd a) (snd b).
 
-Fixpoint all_some {A} (l : list (option A)) : option (list A) :=
-  match l with
-  | [] => Some []
-  | None :: _ => None
-  | Some x :: r => match all_some r with Some y => Some (x :: y) | None => None end
-  end.
-
 (* every listed call must be one the model knows; an unknown bucket mutation gives None *)
 Definition cls_upload (e : string * string) : option uphase :=
   if ev_eqb e ("objstore.UploadDir", "path.Join(id.String(), ChunksDirname)")%string then Some PChunks
